@@ -77,6 +77,7 @@ pub fn run(ctx: &Ctx) {
     macro_rules! ck {
         ($key:expr, $cond:expr, $($m:tt)*) => {{
             ctx.eval(1);
+            ctx.case($key);
             if !($cond) {
                 ctx.violation($key, &format!($($m)*), json!({"kind": "ff_const", "which": $key}));
             }
@@ -134,6 +135,7 @@ pub fn run(ctx: &Ctx) {
         let rs = real::scalar(x);
         let m = Zl(*x);
         let case = json!({"kind": "ff", "scalar": x.hex()});
+        ctx.case(&case.to_string());
         // Euler criterion
         let is_sq = m.is_zero() || m.pow(&lm.sub(&U::ONE).shr(1)) == Zl::ONE;
         match guarded(|| Option::<Scalar>::from(Field::sqrt(&rs))) {
@@ -235,6 +237,7 @@ pub fn run(ctx: &Ctx) {
         ctx.eval(1);
         let m = ed::decompress(e);
         let case = json!({"kind": "group_encoding", "bytes": hex(e)});
+        ctx.case(&case.to_string());
         let r = guarded(|| {
             let a: Option<EdwardsPoint> = <EdwardsPoint as GroupEncoding>::from_bytes(e).into();
             let b: Option<EdwardsPoint> = <EdwardsPoint as GroupEncoding>::from_bytes_unchecked(e).into();
@@ -277,6 +280,7 @@ pub fn run(ctx: &Ctx) {
         let (a, j) = k.aj.clone().unwrap();
         let p = k.real;
         let case = json!({"kind": "cofactor", "point": k.name});
+        ctx.case(&case.to_string());
         let r = guarded(|| {
             let sub: Option<SubgroupPoint> = CofactorGroup::into_subgroup(p).into();
             let tf: bool = CofactorGroup::is_torsion_free(&p).into();
@@ -367,6 +371,5 @@ pub fn run(ctx: &Ctx) {
             }
         }
     }
-    ctx.nontriv(ctx.evaluations.load(std::sync::atomic::Ordering::Relaxed));
     ctx.sample_tag("group", json!({"point": "B + T_1", "expected": "into_subgroup = None, clear_cofactor = [8]B"}));
 }
